@@ -88,7 +88,19 @@ def _o_c02(rng, c, variant):
         return {}
     convert = variant == 1
     rows, kinds = _texts_random(rng, c["n"], c.get("ndata", 2), convert)
-    return {"texts": rows, "kinds": kinds, "convert": convert}
+    # shadow: the process encoded the same frame with the opposite text_convert setting just before (a conversion result
+    # remembered per text must not leak into a document that asked for the other treatment)
+    return {"texts": rows, "kinds": kinds, "convert": convert, "shadow": rng.random() < 0.5}
+
+
+def _o_c03(rng, c, variant):
+    """variant 1: the row heights come from a numeric column (Int64 / Float64 digits wrapping in a narrow column);
+    variant 2: a group_by column whose label needs 2-3 lines (shown on the first row of a group and of every page)."""
+    if variant == 1 and c.get("ndata", 2) >= 2:
+        return {"numh": rng.choice(["int", "float"])}
+    if variant == 2 and c.get("ndata", 2) >= 2:
+        return {"gby": rng.choice([2, 3])}
+    return {}
 
 
 NP = {False, True}
@@ -140,9 +152,16 @@ PROPS = {
                    dict(consts=C(NSet={0, 1, 7, 12, 20}, Heights={1, 2, 3, 4, 6}, NrowSet={1, 2, 5, 8, 13, 21}, Strategies=ALL_STRAT,
                                  LevelSet={1, 2, 3}, HdrSet={"none", "default", "explicit", "explicit2"}, FootSet=FS3,
                                  SrcSet=FS3, NewPageSet=NP, PbRowSet=PR, PlaceSet=PL3, FontSet={1, 4, 6, 9}, SizeSet={6, 9, 12, 18, 24},
-                                 PbHdrSet=NP, DivSet=DIVX, DupSet=NP), simulate=900)],
+                                 PbHdrSet=NP, DivSet=DIVX, DupSet=NP), simulate=900),
+                   # heights from a numeric column / a wrapping group_by label (variants 1, 2)
+                   dict(consts=C(NSet={7, 12, 20}, Heights={1, 2, 3, 4}, NrowSet={5, 8, 13, 21}, Strategies=S3,
+                                 LevelSet={1, 2}, HdrSet={"none", "default", "explicit"}, FootSet={"none", "table"},
+                                 NewPageSet=NP, PbRowSet=PR, PlaceSet={"last", "all"}, NDataSet={2, 3}), simulate=250, variants=3)],
             thorough=[dict(consts=C(NSet={4}, Heights={1, 2, 3}, NrowSet={3, 4, 6}, Strategies=S3, LevelSet={1, 2},
                                     HdrSet={"none", "default", "explicit"}, FootSet={"none", "table"}, NewPageSet=NP, PbRowSet=PR, PlaceSet={"all"})),
+                      dict(consts=C(NSet={7, 12, 20, 35}, Heights={1, 2, 3, 4}, NrowSet={5, 8, 13, 21, 34}, Strategies=ALL_STRAT,
+                                    LevelSet={1, 2}, HdrSet={"none", "default", "explicit"}, FootSet={"none", "table"},
+                                    NewPageSet=NP, PbRowSet=PR, PlaceSet={"last", "all"}, NDataSet={2, 3}), simulate=3000, variants=3),
                       dict(consts=C(NSet={4}, Heights={1, 2}, NrowSet={3, 4, 6}, Strategies={"pageby"}, LevelSet={1},
                                     HdrSet={"none", "default", "explicit"}, FootSet={"none", "table"}, NewPageSet=NP, PbRowSet=PR, PlaceSet={"all"},
                                     DivSet={"resume", "second"})),
@@ -150,6 +169,7 @@ PROPS = {
                                     LevelSet={1, 2, 3}, HdrSet={"none", "default", "explicit", "explicit2"}, FootSet=FS3, SrcSet=FS3,
                                     NewPageSet=NP, PbRowSet=PR, PlaceSet=PL3, FontSet={1, 2, 3, 4, 5, 6, 7, 8, 9, 10},
                                     SizeSet={6, 8, 9, 10, 12, 14, 18, 24}, PbHdrSet=NP, DivSet=DIVX, DupSet=NP), simulate=10000)]),
+        opts=_o_c03,
         nontrivial=lambda c, pred: pred is not None and pred and pred[-1]["p"] >= 2,
     ),
     "C04": dict(
@@ -314,7 +334,7 @@ def _scenarios(ctx, work, spec, tier, rng):
                 if g.get("prefixes") and rng.random() < g["prefixes"] and s["cfg"]["n"] >= 2:
                     o = dict(o)
                     o["prefixes"] = True
-                out.append({"c": s["cfg"], "o": o, "pred": s["out"] if not o.get("texts") else None})
+                out.append({"c": s["cfg"], "o": o, "pred": s["out"] if not (o.get("texts") or o.get("numh") or o.get("gby")) else None})
     for i, s in enumerate(out):
         s["id"] = i
     return out
